@@ -96,7 +96,8 @@ def serve_dataset(args):
                 st, hd, body = srv.get(l3.access_qs(q))
                 line = l3.canon_access(body) if st is not None else "access noreply"
                 raws.append((st, body))
-            if st is not None and hd.get("content-length") is not None and int(hd.get("content-length")) != len(body):
+            hd = {k.lower(): v for k, v in hd.items()}
+            if st is not None and (hd.get("content-length") is None or int(hd.get("content-length")) != len(body)):
                 line += " BADLENGTH"
             lines.append(to_l2_format(op, line))
             if not srv.alive():
